@@ -115,13 +115,17 @@ def datavectorCore (dom : Dom) (cliques : List Clique) (pots : CliqueVec α) : F
 def datavectorScale {β : Type} [Scalar β] (flat : List β) (wgt total : β) : List β :=
   flat.map (fun v => Scalar.mul (Scalar.mul v wgt) total)
 
-/-- `mle` (graphical_model.py:178-191): potentials from marginals, cliques in DFS order -/
-def mle (cliques : List Clique) (marg : CliqueVec α) : CliqueVec α :=
+/-- `mle` (graphical_model.py:178-191): potentials from marginals, cliques in DFS order.
+The marginals live in plain space (`β`), the potentials in log space (`α`); `logf` is
+`Factor.log` (for `Float` both types coincide; for the exact instances it is the carrier
+re-interpretation, with the `1e-100` offset dropped). -/
+def mle {β : Type} [Scalar β] (logf : Factor β → Factor α) (cliques : List Clique) (marg : CliqueVec β) :
+    CliqueVec α :=
   (cliques.foldl (fun (st : List Attr × CliqueVec α) cl =>
     let (vars, out) := st
     let new := cl.filter (fun a => vars.contains a)
     let m := marg.get cl
-    let pot := m.log.sub ((m.projectSum new).log)
+    let pot := (logf m).sub (logf (m.projectSum new))
     (JT.union vars cl, out ++ [(cl, pot)])) ([], [])).2
 
 end GM
